@@ -351,6 +351,9 @@ func (g *Reg) manifests(req *simnet.Request, repo, ref string, q url.Values) *si
 		}
 		if g.K.Strict {
 			for _, c := range ContentRefs(raw) {
+				if c.External {
+					continue // (registries do not verify layers that carry URLs)
+				}
 				if c.Manifest {
 					if g.Repo(repo).Manifests[c.Digest] == nil {
 						return resp(400, "MANIFEST_BLOB_UNKNOWN")
